@@ -25,6 +25,7 @@ THEOREMS = [
     "Mesa.Viz.C20_draw_kwargs",
     "Mesa.Viz.C20_hex_marker_at_hexagon_centre",
     "Mesa.Viz.C20_distinct_locations_distinct_positions",
+    "Mesa.Viz.C20_network_markers_at_layout_positions",
     "Mesa.Viz.C20_altair_one_row_per_agent",
     "Mesa.Viz.C20_altair_row_values",
     "Mesa.Viz.C20_altair_chart_encoding",
@@ -64,7 +65,7 @@ TRUSTED = [
     "Altair: Chart.to_dict() reports the rows given to alt.Data(values=...), the encoding channels (x / y type, colour, size, tooltip fields) and the mark properties unchanged; what Vega-Lite renders from them (a nominal colour scale maps colour names to scheme colours) is not modelled",
     "solara/reacton: solara.render runs the component function, its children and then its effects once (used for SpaceMatplotlib, SpaceAltair, ModelCreator; the Axes / Chart are taken from the post_process hook; the inputs UserInputs creates are recorded at solara's boundary — the calls of solara.SliderInt / SliderFloat / Select / Checkbox / InputText —, an input is changed by calling its on_value); a reactive value set outside a render keeps the value",
     "solara, the controls: SolaraViz is rendered by solara.render with solara.Sidebar / solara.AppBar replaced by solara.Column (outside an AppLayout their children are not rendered); buttons, sliders, the checkbox and the inputs are operated through the on_click / on_value recorded at solara's boundary, a disabled button is not clicked; threads are not run: the play loop is the function handed to solara.lab.use_task, called in the harness' thread with time.sleep (of mesa.visualization.solara_viz) as the point where the scripted user acts; that solara starts that function when playing / running change, cancels it on unmount, and what the visualisation thread does (use_threads) is not modelled; reacton's reconciliation by position (why toggling the threads checkbox remounts the controller) is observed, not modelled beyond its effect",
-    "networkx spring_layout(seed=0) is deterministic; the model keeps a node's label for its layout position",
+    "networkx spring_layout(seed=0) is deterministic; under the default layout the model keeps a node's label for its layout position (under a caller-supplied layout — `drawnet` — positions are the layout's own and the lookup by label is in the model); the edges (nx.draw_networkx_edges) are not modelled and not drawn there (draw_grid=False)",
     "numpy boolean masking / np.unique / set() over the marker and z-order arrays (the model keeps the distinct values; the order of the scatter calls is not compared)",
     "positions are exact integers (hex grids in units of sqrt(3)/2 and 1/2); IEEE rounding of the hex transform is checked with tolerance 1e-6, not modelled",
     "CPython keyword binding: the oracle calls the generated __init__ for real; `bindsByKeyword` in Props/C20.lean is that rule written out",
@@ -78,7 +79,7 @@ RULE = ("12% ctrl scenarios: the real SolaraViz on a model class taking **kw tha
         "non-contiguous node labels and possibly no edges, Voronoi with 1-6 centroids, 2 continuous spaces; half of the mesa.space ContinuousSpaces with an origin x_min, y_min in -3..3), sizes 1-5 (4% of the mesa.space grids / ContinuousSpace: width or height 0; 3% of the networks: no node — spaces without room, which draw_space / Altair refuse), 0-6 agents with several per cell, "
         "agents never placed, a pool of 0-4 portrayal dict *objects* shared between agents (keys color/size/marker/zorder, colours as names and as RGB(A) tuples — none / all / mixed —, the optional "
         "alpha/edgecolors/linewidths under an all/none/some policy, unsupported keys), interleaved place/move/remove/dict-rewrite/"
-        "re-portray ops and observations collect_agent_data / draw_space (Agg; also with plotting keywords alpha / edgecolors / linewidths) / Altair _draw_grid (rows, encoded channels, x/y type, tooltip fields, default "
+        "re-portray ops and observations collect_agent_data / draw_space (Agg; also with plotting keywords alpha / edgecolors / linewidths; on networks also with a caller-supplied layout algorithm — a table node -> position over most / all / more than the nodes, distinct or coinciding positions, rarely empty — and keywords for it) / Altair _draw_grid (rows, encoded channels, x/y type, tooltip fields, default "
         "mark size) / the solara components SpaceMatplotlib and SpaceAltair with the portrayal and with their default portrayals / heap dump / the default marker size (all agents drawn with an empty portrayal) / property layers "
         "(1-3 named layers, requests of 1-4 entries in any order incl. names the space has no layer for; colour or colormap or neither; "
         "alpha absent / 25 / 50 / 100 %; range automatic, one-sided, explicit incl. without extent, cutting the data and inverted; colour bar "
@@ -185,6 +186,14 @@ def tags(sc, obs):
                     yield "branch:observe-empty-space"
                 if o.startswith("err"):
                     yield "result:" + o
+            if w[0] == "drawnet":
+                yield "drawnet:" + (" ".join(o.split()[:2]) if o.startswith("err") else "same-position-twice" if len(set(t.split(":", 1)[1] for t in w[1:])) < len(w) - 1
+                                    else "ok")
+                nodes = {t.split(":")[0] for t in w[1:]}
+                if any(n not in w0[5:] for n in nodes):
+                    yield "drawnet:layout-knows-a-node-the-graph-lacks"
+                if any(n not in nodes for n in w0[5:]) and o.startswith("ok"):
+                    yield "drawnet:layout-lacks-an-empty-node"
             if w[0] == "drawk":
                 yield "drawk:" + ("refused" if o.startswith("err Value conflict") else "dropped" if w0[2] in ("cs", "xcs", "vor") else "applied")
             if w[0] in ("draw", "drawc", "drawc0", "drawk") and o.count(" | ") >= 2:
